@@ -23,6 +23,13 @@ def check(v, tier, seed):
         recs, n = rtcommon.validate(v, "C03", f, WHAT, extra=EXTRA)
         recs_by[name] = recs
         total += n
+    # decodes of corrupted streams (fault enumeration of C02, ASan+UBSan build: every accepted geometry is also read through all accessors)
+    import faultcommon
+    merged, probes = faultcommon.sweep(v, "asan", tier, seed, wd)
+    frecs, fn = faultcommon.validate(v, "C03", merged, "a corrupted stream decoded successfully into a geometry that is not structurally valid (Level A: StructValid)")
+    v.cov["fault_probes"] = probes
+    v.cov["fault_decodes_ok_validated"] = len([x for x in frecs if x["e"] == "Probe" and x["ok"]])
+    total += fn
     rtcommon.cover(v, recs_by, stats, total)
     v.cov["rule"] = ("random geometries (meshes: grids, shared-edge fans, soups with degenerate / duplicated / flipped faces; point clouds; 1-4 attributes "
                      "of every type and data type, identity and explicit point->value maps) x random option sets (method, sub-method, speeds 0..10, "
